@@ -811,17 +811,47 @@ pub fn migrate(seed: u64, out: &mut Outcome) {
     let mut rng = Rng::new(seed ^ 0x319a);
     let (mut tc, lim_c) = random_transport(&mut rng);
     let (mut ts, lim_s) = random_transport(&mut rng);
-    for t in [&mut tc, &mut ts] {
+    let mut mig_initial = [1200u16; 2];
+    let mut mig_upper = [1452u16; 2];
+    for (i, t) in [&mut tc, &mut ts].into_iter().enumerate() {
         t.max_idle_timeout(Some(IdleTimeout::try_from(Duration::from_secs(30)).unwrap()));
+        // explicit MTU configuration (known to the C13 oracles): initial_mtu, discovery on (default bounds) or off
+        mig_initial[i] = *rng.pick(&[1200u16, 1200, 1300, 1400]);
+        t.initial_mtu(mig_initial[i]);
+        if rng.chance(1, 3) {
+            t.mtu_discovery_config(None);
+            mig_upper[i] = mig_initial[i];
+        } else {
+            t.mtu_discovery_config(Some(MtuDiscoveryConfig::default()));
+            mig_upper[i] = 1452;
+        }
     }
     let migration_enabled = !rng.chance(1, 4);
     let clock = SimClock(Arc::new(std::sync::Mutex::new(std::time::UNIX_EPOCH + Duration::from_secs(1_700_000_000))));
     let mut scfg = server_config(seed, ts, &clock);
     scfg.migration(migration_enabled);
-    let server = quinn_proto::Endpoint::new(Arc::new(endpoint_config(seed ^ 1, 8, None)), Some(Arc::new(scfg)), true);
-    let client = quinn_proto::Endpoint::new(Arc::new(endpoint_config(seed ^ 2, 8, None)), None, true);
+    let mups = [*rng.pick(&[1200u16, 1350, 1472, 1472]), *rng.pick(&[1200u16, 1350, 1472, 1472])];
+    let mut ecs = endpoint_config(seed ^ 1, 8, None);
+    ecs.max_udp_payload_size(mups[SERVER]).unwrap();
+    let mut ecc = endpoint_config(seed ^ 2, 8, None);
+    ecc.max_udp_payload_size(mups[CLIENT]).unwrap();
+    let server = quinn_proto::Endpoint::new(Arc::new(ecs), Some(Arc::new(scfg)), true);
+    let client = quinn_proto::Endpoint::new(Arc::new(ecc), None, true);
     let mut sim = Sim::new(seed, client, server, clock);
+    // C13 on every path of a migrating connection: nothing above the peer's max_udp_payload_size
+    sim.mtu_rules = Some([
+        MtuRule { initial: mig_initial[CLIENT].min(mups[SERVER]), probe_cap: (mig_upper[CLIENT] as usize).min(mups[SERVER] as usize), peer_max_udp: mups[SERVER] as usize },
+        MtuRule { initial: mig_initial[SERVER].min(mups[CLIENT]), probe_cap: (mig_upper[SERVER] as usize).min(mups[CLIENT] as usize), peer_max_udp: mups[CLIENT] as usize },
+    ]);
     sim.path_may_migrate = [false, migration_enabled];
+    // half of the executions run over IPv4: a port-only change of an IPv4 peer takes the NAT-rebinding branch of
+    // `migrate` (PathData::from_previous) instead of building a fresh path
+    let v4 = rng.chance(1, 2);
+    if v4 {
+        use std::net::Ipv4Addr;
+        sim.nodes[CLIENT].addr = SocketAddr::new(IpAddr::V4(Ipv4Addr::new(10, 0, 0, 1)), 44433);
+        sim.nodes[SERVER].addr = SocketAddr::new(IpAddr::V4(Ipv4Addr::new(10, 0, 0, 2)), 4433);
+    }
     let ccfg = client_config(seed, tc);
     sim.model_trace = true;
     sim.keep_history = true;
@@ -867,6 +897,8 @@ pub fn migrate(seed: u64, out: &mut Outcome) {
             let old = sim.nodes[CLIENT].addr;
             let new = if sim.rng.chance(1, 2) {
                 SocketAddr::new(old.ip(), old.port() + 1 + moved as u16)
+            } else if v4 {
+                SocketAddr::new(IpAddr::V4(std::net::Ipv4Addr::new(10, 0, 1, 2 + moved as u8)), old.port())
             } else {
                 SocketAddr::new(IpAddr::V6(Ipv6Addr::new(0, 0, 0, 0, 0, 0, 0, 2 + moved as u16)), old.port())
             };
@@ -887,7 +919,14 @@ pub fn migrate(seed: u64, out: &mut Outcome) {
             let n = sim.history.len();
             let i = n - 1 - sim.rng.below(n.min(8) as u64) as usize;
             let mut d = sim.history[i].clone();
-            d.from = SocketAddr::new(IpAddr::V6(Ipv6Addr::new(0, 0, 0, 0, 0, 0, 9, 9)), 6000 + replays as u16);
+            // from a third party's address, or (spoofed) from another port of the client's own IP address
+            d.from = if sim.rng.chance(1, 2) {
+                SocketAddr::new(sim.nodes[CLIENT].addr.ip(), 6000 + replays as u16)
+            } else if v4 {
+                SocketAddr::new(IpAddr::V4(std::net::Ipv4Addr::new(10, 9, 9, 9)), 6000 + replays as u16)
+            } else {
+                SocketAddr::new(IpAddr::V6(Ipv6Addr::new(0, 0, 0, 0, 0, 0, 9, 9)), 6000 + replays as u16)
+            };
             d.at = sim.now + sim.rng.below(2_000_000);
             d.origin = usize::MAX;
             sim.push_wire(d);
@@ -970,8 +1009,14 @@ pub fn migrate(seed: u64, out: &mut Outcome) {
         out.samples.push(format!("seed {seed}: migration_enabled {migration_enabled}, moves {moved}, replays {replays}, client addresses {:?}, end {end:?} at {} ms", genuine_client_addrs.borrow(), sim.now / 1_000_000));
     }
     if std::env::var("VERIF_SIM_VERBOSE").is_ok() {
-        for r in sim.trace.iter().filter(|r| !matches!(r, Rec::Tx { .. })) {
+        let all = std::env::var("VERIF_SIM_VERBOSE").map_or(false, |v| v == "2");
+        for r in sim.trace.iter().filter(|r| all || !matches!(r, Rec::Tx { .. })) {
             eprintln!("{r:?}");
+        }
+        for node in 0..2 {
+            for (ch, nc) in &sim.nodes[node].conns {
+                eprintln!("node {node} conn {ch}: snapshot {:?}", nc.conn.verif_snapshot());
+            }
         }
         for node in 0..2 {
             eprintln!("app node {node}: plans {:?} next {} send {:?} recv {:?}", w.sides[node].plans, w.sides[node].next_plan, w.sides[node].send, w.sides[node].recv.iter().map(|(k, v)| (*k, v.bytes, v.fin, v.unordered)).collect::<Vec<_>>());
@@ -1137,7 +1182,7 @@ pub const MTU_RULE: &str = "one execution = both peers with random initial_mtu {
 
 pub fn mtu(seed: u64, out: &mut Outcome) {
     let mut rng = Rng::new(seed ^ 0x3707);
-    let mut rules = [MtuRule { initial: 1200, probe_cap: 0 }; 2];
+    let mut rules = [MtuRule { initial: 1200, probe_cap: 0, peer_max_udp: 0 }; 2];
     let mut tcs = Vec::new();
     let mut min_mtus = [1200u16; 2];
     let mut upper = [0u16; 2];
@@ -1199,6 +1244,7 @@ pub fn mtu(seed: u64, out: &mut Outcome) {
     let ccfg = client_config(seed, tc);
     for side in 0..2 {
         rules[side].probe_cap = (upper[side] as usize).min(mups[1 - side] as usize);
+        rules[side].peer_max_udp = mups[1 - side] as usize;
     }
     // a peer max_udp_payload_size below our initial_mtu lowers the estimate before the first transmit; a fresh
     // path then starts from that value, not from initial_mtu
